@@ -125,6 +125,83 @@ class ChoicesWriters(FunctionSpec):
         run.oblige("frame.no_parse_path_caller", not callers, note=str(callers))
 
 
+class ConstructionFrameAudit(FunctionSpec):
+    """Syntactic frame (modifies) audit of the objects that outlive one call - the construction side is outside the
+    executor's dialect, so its write effects are bounded from the source text:
+      A1  methods other than __init__ of long-lived classes (Optimizer, pest.parser.Parser, every Expression / Rule class)
+          assign no attribute of `self` (allow-list: Optimizer.log - a debug log -, the OptimizedChoice cache proved
+          idempotent above, and `update`/construction helpers that run before the object is shared);
+      A2  no `global` / `nonlocal` statement in src/pest;
+      A3  no mutable default argument ([], {}, set(), list(), dict()) in src/pest;
+      A4  no function mutates a module-level list / dict / set through its name (append, update, item store, ...).
+    An over-approximation of 'writes to shared state' for direct writes (aliases are not followed)."""
+
+    target = "pest.grammar.optimizer.Optimizer.optimize"
+    label = "C15.construction[frame audit]"
+    ALLOW_SELF_WRITES = {("Optimizer", "log"), ("OptimizedChoice", "_compiled"), ("OptimizedChoice", "choices"), ("Expression", "_pure"), ("Identifier", "_pure")}
+    PER_CALL_CLASSES = {"Builder", "Scanner", "ParserState", "Stack", "SnapshottingInt", "Stream", "Pairs", "Pair", "Position", "Span", "Token", "RuleFrame"}
+    MUTATORS = {"append", "extend", "insert", "pop", "remove", "clear", "update", "setdefault", "add", "discard", "popitem", "sort", "reverse"}
+
+    def source(self, engine):
+        return engine.program.funcs[self.target]
+
+    def direct(self, run: Run) -> None:  # noqa: C901, PLR0912
+        self_writes, globals_, mutable_defaults, module_mutations = [], [], [], []
+        for path in sorted(_src_root().rglob("*.py")):
+            rel = str(path.relative_to(_src_root()))
+            tree = ast.parse(path.read_text())
+            module_mutables = set()
+            for st in tree.body:
+                tgts = st.targets if isinstance(st, ast.Assign) else [st.target] if isinstance(st, ast.AnnAssign) and st.value is not None else []
+                val = getattr(st, "value", None)
+                if tgts and isinstance(val, (ast.List, ast.Dict, ast.Set, ast.ListComp, ast.DictComp, ast.SetComp)) or (
+                    tgts and isinstance(val, ast.Call) and isinstance(val.func, ast.Name) and val.func.id in ("list", "dict", "set", "defaultdict")
+                ):
+                    module_mutables |= {t.id for t in tgts if isinstance(t, ast.Name)}
+            for nd in ast.walk(tree):
+                if isinstance(nd, (ast.Global, ast.Nonlocal)):
+                    globals_.append(f"{rel}:{nd.lineno}")
+                if isinstance(nd, (ast.FunctionDef, ast.AsyncFunctionDef, ast.Lambda)):
+                    for d in [*nd.args.defaults, *[k for k in nd.args.kw_defaults if k is not None]]:
+                        if isinstance(d, (ast.List, ast.Dict, ast.Set)) or (isinstance(d, ast.Call) and isinstance(d.func, ast.Name) and d.func.id in ("list", "dict", "set")):
+                            mutable_defaults.append(f"{rel}:{d.lineno}")
+                if isinstance(nd, ast.FunctionDef):
+                    for sub in ast.walk(nd):
+                        if isinstance(sub, ast.Call) and isinstance(sub.func, ast.Attribute) and isinstance(sub.func.value, ast.Name) and sub.func.value.id in module_mutables and sub.func.attr in self.MUTATORS:
+                            module_mutations.append(f"{rel}:{sub.lineno} {sub.func.value.id}.{sub.func.attr}")
+                        if isinstance(sub, (ast.Assign, ast.AugAssign)):
+                            for t in sub.targets if isinstance(sub, ast.Assign) else [sub.target]:
+                                if isinstance(t, ast.Subscript) and isinstance(t.value, ast.Name) and t.value.id in module_mutables:
+                                    module_mutations.append(f"{rel}:{sub.lineno} {t.value.id}[..] =")
+            for cls in [n for n in ast.walk(tree) if isinstance(n, ast.ClassDef)]:
+                if cls.name in self.PER_CALL_CLASSES or rel in ("grammar/parser.py", "grammar/scanner.py", "grammar/codegen/builder.py"):
+                    continue  # objects created per call (the grammar front end's Scanner / Parser, the code Builder)
+                for fn in [f for f in cls.body if isinstance(f, ast.FunctionDef)]:
+                    if fn.name in ("__init__", "__post_init__", "__new__"):
+                        continue
+                    for sub in ast.walk(fn):
+                        tgts = []
+                        if isinstance(sub, ast.Assign):
+                            tgts = sub.targets
+                        elif isinstance(sub, (ast.AugAssign, ast.AnnAssign)):
+                            tgts = [sub.target]
+                        elif isinstance(sub, ast.Delete):
+                            tgts = sub.targets
+                        for t in tgts:
+                            for leaf in ast.walk(t):
+                                if isinstance(leaf, ast.Attribute) and isinstance(leaf.value, ast.Name) and leaf.value.id == "self" and isinstance(leaf.ctx, (ast.Store, ast.Del)):
+                                    if (cls.name, leaf.attr) not in self.ALLOW_SELF_WRITES:
+                                        self_writes.append(f"{rel}:{sub.lineno} {cls.name}.{fn.name}: self.{leaf.attr}")
+                        if isinstance(sub, ast.Call) and isinstance(sub.func, ast.Attribute) and sub.func.attr in self.MUTATORS:
+                            v = sub.func.value
+                            if isinstance(v, ast.Attribute) and isinstance(v.value, ast.Name) and v.value.id == "self" and (cls.name, v.attr) not in self.ALLOW_SELF_WRITES:
+                                self_writes.append(f"{rel}:{sub.lineno} {cls.name}.{fn.name}: self.{v.attr}.{sub.func.attr}()")
+        run.oblige("frame.audit.no_self_writes_outside_init", not self_writes, note=str(self_writes[:6]))
+        run.oblige("frame.audit.no_global_statements", not globals_, note=str(globals_[:6]))
+        run.oblige("frame.audit.no_mutable_defaults", not mutable_defaults, note=str(mutable_defaults[:6]))
+        run.oblige("frame.audit.no_module_level_mutation", not module_mutations, note=str(module_mutations[:6]))
+
+
 # ------------------------------------------------------------------ dynamic frame check of the construction side
 def _fingerprint(obj: Any, seen: dict[int, int], depth: int = 0) -> Any:
     """deep structural fingerprint (identity-aware) of the shared objects reachable from obj"""
@@ -175,6 +252,8 @@ def _shared_state() -> Any:
             "ASCII_RULE_MAP": ascii_mod.ASCII_RULE_MAP,
             "UNICODE_RULES": uni_mod.UNICODE_RULES,
             "DEFAULT_OPTIMIZER.passes": opt_mod.DEFAULT_OPTIMIZER.passes,
+            # every attribute of the process-wide optimizer except its debug log (seeded/C15b kept a flag there)
+            "DEFAULT_OPTIMIZER.state": {k: v for k, v in vars(opt_mod.DEFAULT_OPTIMIZER).items() if k != "log"},
             "DEFAULT_OPTIMIZER_PASSES": opt_mod.DEFAULT_OPTIMIZER_PASSES,
             "PRELUDE": gen_mod.PRELUDE,
         },
@@ -263,6 +342,22 @@ def dynamic_frame_check() -> dict:
         later.append((gi, True, "interp", Parser.from_grammar(g)))
     observe_all("fresh instances built later", later)
     check("everything")
+    # what was optimized before must not matter: a grammar with both trivia rules and a skip pattern in a NON-atomic rule,
+    # built on the shared DEFAULT_OPTIMIZER right after a trivia-free grammar, against the same grammar on a fresh Optimizer
+    from pest.grammar.optimizer import DEFAULT_OPTIMIZER_PASSES, Optimizer
+
+    g_free = 'r = { (!"z" ~ ANY)* ~ "z" }'
+    g_both = 'WHITESPACE = _{ " " }\nCOMMENT = _{ "/*" ~ (!"*/" ~ ANY)* ~ "*/" }\nr = { (!";" ~ ANY)* ~ ";" }'
+    texts = ["ab ;", "ab /* ; */", "a b  ;", "ab /* x; y */ cd ;", ";"]
+    fresh = Parser.from_grammar(g_both, optimizer=Optimizer(list(DEFAULT_OPTIMIZER_PASSES)))
+    Parser.from_grammar(g_free)
+    after = Parser.from_grammar(g_both)
+    for text in texts:
+        n += 1
+        a, b = _observe(fresh, "r", text), _observe(after, "r", text)
+        if a != b:
+            bad.append({"what": "a parser depends on which grammar the shared optimizer handled before", "grammar": g_both, "previous grammar": g_free, "text": text, "fresh optimizer": str(a)[:120], "after": str(b)[:120]})
+    check("order of optimizer use")
     # the very same str object parsed from every start position and then again from 0 (a cache keyed on the identity of
     # the input, as in seeded/C15, only shows when one object is parsed twice from different positions)
     for gi, opt, kind, p in parsers:
@@ -324,7 +419,7 @@ def specs(tier):
     interp = [*groups.core_terminals(), *groups.stack_terminals(), *groups.structure(), *groups.backtracking(), *ops.bounded_repeat_specs(),
               *groups.rules(), *groups.trivia(), *groups.entry(), ops.SkipUntilSpec(), ops.RegexNodeSpec("RegexExpression"), ops.RegexNodeSpec("OptimizedChoice")]
     tpl = templates.all_templates(2 if tier == "quick" else 4)
-    return [*interp, *tpl, *templates.skipuntil_templates()[:2], *templates.regex_node_templates(), OptimizedChoiceCache(False), OptimizedChoiceCache(True), ChoicesWriters()]
+    return [*interp, *tpl, *templates.skipuntil_templates()[:2], *templates.regex_node_templates(), OptimizedChoiceCache(False), OptimizedChoiceCache(True), ChoicesWriters(), ConstructionFrameAudit()]
 
 
 def extra_checks(tier, seed):
